@@ -105,6 +105,21 @@ def e2e_history(idx, kind, spec, seed, grog, harness, base, findings):
             remote_before = remote_cas(srv.snapshot()[0])
             store_ws.clear_trace(ws)
             rc, _, out = store_ws.grog(grog, ws, rootA, env_extra=env)
+        elif kind == "remote-down-wide":
+            # the remote is down (every PUT fails) while a directory output with 100 files is written: a reported failure or a
+            # degraded success, never a hang; after the outage a tainted rebuild publishes everything
+            srv.set_faults([("PUT", 1, 500, True)])
+            rc1, _, out1 = store_ws.grog(grog, ws, rootA, env_extra=env)
+            res["stats"]["first_build_rc"] = rc1
+            if rc1 == "timeout":
+                bad("build hangs while the remote store fails every PUT (directory output with %s files)" % max(t.get("wide", 0) for t in spec["targets"]),
+                    out=out1[-300:]); return res
+            srv.set_faults([])
+            rc, _, out = store_ws.grog(grog, ws, rootA, args=["taint"] + ["//p:t%d" % t["i"] for t in spec["targets"]], env_extra=env)
+            a_local_before = local_cas(rootA, ws)
+            remote_before = remote_cas(srv.snapshot()[0])
+            store_ws.clear_trace(ws)
+            rc, _, out = store_ws.grog(grog, ws, rootA, env_extra=env)
         elif kind == "put-fault-then-retry":
             nput = 1 + r.below(4)
             srv.set_faults([("PUT", nput, 500)])
@@ -209,11 +224,18 @@ def e2e_history(idx, kind, spec, seed, grog, harness, base, findings):
 def run_e2e(out, tier, grog, harness, findings):
     r = vlib.Rng(vlib.seed() * 7919 + 8)
     n = 24 if tier == "quick" else 240
-    kinds = ["basic", "local-then-remote", "put-fault-then-retry", "b-read-faults"]
+    kinds = ["basic", "local-then-remote", "put-fault-then-retry", "b-read-faults", "remote-down-wide"]
     jobs = []
     for i in range(n):
-        kind = kinds[i % len(kinds)]
+        kind = kinds[i % 4]
         jobs.append((i, kind, store_ws.gen_spec(r), r.next()))
+    for k, wide in enumerate([40, 100] if tier == "quick" else [33, 40, 64, 100, 200, 300]):
+        spec = store_ws.gen_spec(r)
+        dirs = [t for t in spec["targets"] if t["kind"] in ("dir", "mixed")]
+        if not dirs:
+            spec["targets"][0]["kind"] = "dir"; dirs = [spec["targets"][0]]
+        dirs[0]["wide"] = wide
+        jobs.append((n + k, "remote-down-wide", spec, r.next()))
     base = os.path.join(vlib.scratch(), "c08e2e")
     os.makedirs(base, exist_ok=True)
     stats = {k: {"histories": 0, "dangling": 0, "remote_complete": 0, "b_executed_nothing": 0, "b_failed": 0, "b_gets": 0,
